@@ -264,6 +264,34 @@ type T struct {
 }
 `
 
+// a file head that gofmt changes beyond spacing: an unsorted import block (two groups) and number literals
+// with upper-case prefixes / exponents
+const importsLiterals = `package PKG
+
+import (
+	"strings"
+	"fmt"
+	"bytes"
+
+	"sort"
+	"os"
+)
+
+var (
+	hexa = 0X1F
+	expo = 1E3
+	bina = 0B101
+	octa = 0O17
+	mant = 0X1P-2
+	imag = 1E2i
+)
+
+func useImports(xs []string) string {
+	sort.Strings(xs)
+	return fmt.Sprint(strings.ToUpper("x"), bytes.MinRead, os.PathSeparator, hexa, expo, bina, octa, mant, imag, 0XFF, 2E0)
+}
+`
+
 // bystanders: files goderive has no business touching
 func bystanders(files map[string]string) map[string]os.FileMode {
 	files["README.txt"] = "not a go file\n"
@@ -382,9 +410,10 @@ func genCorpus() {
 		{"dedup to a name of equal length", "dedup", "equal", "deriveEqualA", "deriveEqualB"},
 		{"dedup to a much shorter name in a long file", "dedup", "shorter", "deriveEqual", "deriveEqualWithAnExtraordinarilyLongSuffixThatGoesOnAndOn"},
 	}
-	layouts := []string{"onefile", "twofiles", "testfile", "trailing-comments", "unformatted", "unformatted-twofiles", "nonewline-at-eof", "crlf", "manycalls"}
+	layouts := []string{"onefile", "twofiles", "testfile", "trailing-comments", "unformatted", "unformatted-twofiles", "nonewline-at-eof", "crlf", "manycalls",
+		"imports-literals", "imports-literals-unformatted"}
 	for _, d := range dedups {
-		pick := map[string]bool{"onefile": true, "unformatted": true, "trailing-comments": true}
+		pick := map[string]bool{"onefile": true, "unformatted": true, "trailing-comments": true, "imports-literals": true, "imports-literals-unformatted": true}
 		for _, i := range r.Perm(len(layouts))[:4] {
 			pick[layouts[i]] = true
 		}
@@ -422,6 +451,13 @@ func genCorpus() {
 			case "crlf":
 				files["u.go"] = strings.ReplaceAll(head+f1+f2, "\n", "\r\n")
 				gofmt = false
+			case "imports-literals", "imports-literals-unformatted":
+				// what only gofmt (go/format) does on top of go/printer: import sorting, number-literal normalisation
+				files["u.go"] = importsLiterals + types2 + f1 + f2
+				if lay == "imports-literals-unformatted" {
+					files["u.go"] = uglify(r, files["u.go"])
+				}
+				gofmt = false
 			case "manycalls":
 				var sb strings.Builder
 				sb.WriteString(head + f1)
@@ -439,7 +475,7 @@ func genCorpus() {
 		{"autoname to a shorter name (deriveEqualVeryLongConflictingName -> deriveEqual)", "autoname", "shorter", "deriveEqualVeryLongConflictingName", ""},
 	}
 	for _, a := range autos {
-		for _, lay := range []string{"onefile", "twofiles", "unformatted", "trailing-comments"} {
+		for _, lay := range []string{"onefile", "twofiles", "unformatted", "trailing-comments", "imports-literals"} {
 			head := "package PKG\n" + types2
 			f1 := fmt.Sprintf("\nfunc Eq1(a, b *S) bool { return %s(a, b) }\n", a.first)
 			f2 := fmt.Sprintf("\nfunc Eq2(a, b *T) bool {\n\treturn %s(a, b) // same name, other type\n}\n\nfunc Tail() string { return \"tail\" }\n", a.first)
@@ -456,6 +492,9 @@ func genCorpus() {
 				gofmt = false
 			case "trailing-comments":
 				files["u.go"] = head + f1 + strings.Replace(f2, "func Tail", "// about Tail\nfunc Tail", 1) + "\n// the end\n"
+			case "imports-literals":
+				files["u.go"] = importsLiterals + types2 + f1 + f2
+				gofmt = false
 			}
 			modes := bystanders(files)
 			add(caseT{Kind: "rename", What: a.what + ", " + lay, Renames: "autoname", Length: a.length, Gofmt: gofmt}, files, modes)
